@@ -339,6 +339,12 @@ impl<'a> Ctx<'a> {
                         assignable.push(id(&sv.name));
                     }
                 }
+                Kind::Any => {
+                    // item of an object iterated by key: the path ends in the field name
+                    for _ in 0..2 {
+                        assignable.push(id(&sv.name));
+                    }
+                }
                 _ => {}
             }
         }
@@ -707,7 +713,14 @@ impl<'a> Ctx<'a> {
                 let n = self.r.range(1, 2);
                 let mut values = vec![];
                 for i in 0..n {
-                    values.push(Attr { name: ["sv", "si"][i % 2].into(), val: AttrVal::Bind(self.top_expr()) });
+                    let v = if !self.modules.is_empty() && !self.in_template && self.r.chance(0.2) {
+                        // a slot value that is a script function carries a general l-value path
+                        let m = self.r.pick(&self.modules).clone();
+                        if self.r.chance(0.5) { member(id(&m), "f") } else { Expr::Cond(Box::new(id("flag")), Box::new(member(id(&m), "f")), Box::new(member(member(id(&m), "o"), "g"))) }
+                    } else {
+                        self.top_expr()
+                    };
+                    values.push(Attr { name: ["sv", "si"][i % 2].into(), val: AttrVal::Bind(v) });
                 }
                 Node::Slot { name, values }
             }
@@ -751,6 +764,9 @@ impl<'a> Ctx<'a> {
                 }
                 if self.r.chance(0.15) {
                     attrs.push(Attr { name: "mark:cm".into(), val: self.attr_val() });
+                }
+                if self.r.chance(0.1) {
+                    attrs.push(Attr { name: (*self.r.pick(&["worklet:wk", "worklet:on-move"])).into(), val: AttrVal::Static((*self.r.pick(&["w1", "w2"])).into()) });
                 }
                 let children = if self.r.chance(0.7) { self.nodes(depth + 1) } else { vec![] };
                 Node::El { tag: "plain".into(), attrs, children }
